@@ -231,11 +231,11 @@ h_from_val!(c12_q_f16x2_into_bvd, 6, f16x2(anylen(32)), Bvd, wit_any);
 h_from_ref!(c12_q_f64x2_to_bvd, 4, f64x2(anylen(128)), Bvd, wit_any);
 h_from_val!(c12_q_f64x2_into_bvd, 4, f64x2(anylen(128)), Bvd, wit_any);
 // three and four words, symbolic length (thorough)
-h_from_ref!(c12_t_f64x3_to_bvd, 5, f64x3(anylen(192)), Bvd, wit_any);
-h_from_val!(c12_t_f64x3_into_bvd, 5, f64x3(anylen(192)), Bvd, wit_any);
-h_from_ref!(c12_t_f128x2_to_bvd, 6, f128x2(anylen(256)), Bvd, wit_any);
-h_from_val!(c12_t_f128x2_into_bv, 6, f128x2(anylen(256)), Bv, wit_any);
-h_from_ref!(c12_t_f64x3_to_bv, 5, f64x3(anylen(192)), Bv, wit_any);
+h_from_ref!(c12_q_f64x3_to_bvd, 5, f64x3(anylen(192)), Bvd, wit_any);
+h_from_val!(c12_q_f64x3_into_bvd, 5, f64x3(anylen(192)), Bvd, wit_any);
+h_from_ref!(c12_q_f128x2_to_bvd, 6, f128x2(anylen(256)), Bvd, wit_any);
+h_from_val!(c12_q_f128x2_into_bv, 6, f128x2(anylen(256)), Bv, wit_any);
+h_from_ref!(c12_q_f64x3_to_bv, 5, f64x3(anylen(192)), Bv, wit_any);
 
 // ---- Bvf -> Bv: inline for capacities up to 128 bits (no allocation: symbolic lengths) ----------
 h_from_ref!(c12_q_f8x2_to_bv, 10, f8x2(anylen(16)), Bv, wit_any);
@@ -329,3 +329,49 @@ macro_rules! h_rebuild_bvd {
 h_rebuild_bvd!(c12_q_rebuild_bvd2, bvd2(anylen(128)));
 h_rebuild_bvd!(c12_q_rebuild_bvd3, bvd3(anylen(192)));
 h_rebuild_bvd!(c12_q_rebuild_bvd4, bvd4(anylen(256)));
+
+// =============================================================================================
+// Wide vectors (more than 1024 bits): beyond the 256-bit model value, word-by-word oracle
+// =============================================================================================
+// Added after seeded change C12-E (a 16-word stack buffer inside TryFrom<&Bvd> for Bvf): no scope
+// of this property reached past 256 bits. Source storage is a constant-size allocation (rule R1),
+// the length and all words are symbolic.
+
+macro_rules! h_wide_try {
+    ($name:ident, $unw:literal, $I:ty, $N:literal, $W:literal, $by_val:literal) => {
+        harness!($name, $unw, {
+            let len = nd::usize();
+            nd::assume(len <= 64 * $W);
+            let mut w = [0u64; $W];
+            let mut i = 0;
+            while i < $W {
+                let rem = if len > i * 64 { len - i * 64 } else { 0 };
+                w[i] = nd::u64() & crate::big::m64(rem);
+                i += 1;
+            }
+            w!(len > 1024 && w[$W - 1] != 0, "longer than 1024 bits with a set bit in the top word");
+            w!(len == 64 * $W, "full");
+            w!(len == 0, "empty");
+            let _sep = nd::bool(); // keeps counterexample traces distinct from witness traces (playback dedupe)
+            let a = Bvd::new(Box::new(w) as Box<[u64]>, len);
+            let r = if $by_val { <Bvf<$I, $N>>::try_from(a) } else { <Bvf<$I, $N>>::try_from(&a) };
+            match r {
+                Ok(v) => {
+                    let (data, l) = v.into_inner();
+                    assert!(l == len, "C12: length changed by the conversion (wide)");
+                    let per = 64 / (<$I>::BITS as usize);
+                    let mut j = 0;
+                    while j < $N {
+                        let src = w[j / per] >> ((j % per) * (<$I>::BITS as usize));
+                        assert!(data[j] == src as $I, "C12: bits changed by the conversion (wide)");
+                        j += 1;
+                    }
+                }
+                Err(_) => assert!(false, "C12: conversion failed although the source fits the target capacity (wide)"),
+            }
+        });
+    };
+}
+h_wide_try!(c12_q_wide_bvd17_to_f64x17, 19, u64, 17, 17, false);
+h_wide_try!(c12_q_wide_bvd17_into_f64x17, 19, u64, 17, 17, true);
+h_wide_try!(c12_q_wide_bvd17_to_f32x34, 36, u32, 34, 17, false);
